@@ -601,6 +601,13 @@ def _pure_stdlib():
         out[f"urllib.parse.{fn}"] = getattr(urllib.parse, fn)
     for cls in ("PurePosixPath", "PurePath", "Path", "PosixPath"):
         out[f"pathlib.{cls}"] = pathlib.PurePosixPath
+    import bz2
+    import gzip
+    import lzma
+    import zlib
+    for modname, mod in (("gzip", gzip), ("zlib", zlib), ("bz2", bz2), ("lzma", lzma)):
+        for fn in ("compress", "decompress"):
+            out[f"{modname}.{fn}"] = getattr(mod, fn)
     import decimal
     import fractions
     out["fractions.Fraction"] = fractions.Fraction
